@@ -207,7 +207,7 @@ def run(ctx, repo):
         lines, start = gen_skool(rnd, want_if='fix' if (asm_mode, fix_mode) == (3, 0) else 'asm' if fix_mode == 3 and asm_mode < 3 else False)
         # skool2asm is always at least in @isub mode; skool2bin mode 0 is compared with asm mode 1 only when no isub directive is present
         if asm_mode == 0:
-            if any(l.startswith('@isub') for l in lines):
+            if any(l.startswith('@') and 'isub' in l for l in lines) or any(l.startswith('@if') and '{asm}' in l for l in lines):
                 asm_mode = 1
         # the normalisation skool2asm.main and BinWriter.__init__ both apply (compared by C04.2): @rfix implies @rsub, @rsub implies @ofix;
         # BinWriter gets the modes as the command line gives them (it normalises them itself), the ASM side the normalised ones
